@@ -26,8 +26,15 @@ THEOREMS = ["C18_roundtrip", "C18_assembly", "C18_coords", "C18_labels", "C18_sa
             "C18_labels_orig_refuted", "C18_select"]
 TRUSTED = [
     "Model/NetcdfAsm.v is hand-written (repaired save_footprints_to_netcdf: array assembly, coordinate slicing, "
-    "by-name tower metadata, met series, selection); tied to bldfm.io by exact differential execution of real "
-    "save/load round trips on every run",
+    "by-name tower metadata, met series, selection); tied to bldfm.io (A) by exact differential execution of real "
+    "save/load round trips on every run and (B) for ALL results / tower lists by harness/py2coq_io.py + "
+    "coq/Bridge/IoBridge.v (re-extracted and re-proved on every run)",
+    "harness/py2coq_io.py (fail-closed symbolic executor of save_footprints_to_netcdf / load_footprints_from_netcdf and "
+    "the module level of io.py) and the meaning Model/IoDesc.v gives its output: np.zeros + `a[i, j] = v` as shape + "
+    "index map with IndexError, `for .. in enumerate(..)` as fold_left in source order, basic indexing G[0, :, 0] on "
+    "nested lists, dict / list comprehensions over config.towers, None -> NaN on assignment into a float array, "
+    "xr.Dataset(data_vars, coords) as the record of its members looked up by name; zlib/complevel/shuffle/chunksizes/"
+    "fletcher32/contiguous are the only encoding keys taken to leave the stored values alone",
     "xarray / netCDF4 / HDF5 / zlib are not modelled: they are the Section variables write/read with the hypothesis "
     "read (write d) = d, validated (not proved) by bit-level comparison of real round trips over the property's space",
     "numpy slice assignment flx_data[t, ti] = block copies the whole block (blocks are opaque tokens in the model); "
@@ -620,6 +627,9 @@ def case_size(case):
 
 def check(ctx):
     core.check_properties_file(ctx, "Properties/C18.v", THEOREMS, core.AX_NONE)
+    # tie (B): the current io.py is translated (fail closed) into a description and bridged to the model for ALL inputs
+    import py2coq_io
+    py2coq_io.run(ctx)
     bio, cp = _impl()
     workdir = tempfile.mkdtemp(prefix="c18_", dir=ctx.build)
     cases = space(ctx)
